@@ -5,7 +5,7 @@ at an arbitrary point; the only thing that survives is the captured state, and
 it survives as bytes (cloudpickle round trip).  Restore builds a new iterator
 from a freshly built pipeline plus those bytes.  Up to three generations of
 cut-restore-cut per run, over plain / sharded / nested-sharded sequence sources
-and sharded iterables, at the data-source level and at the pipeline level
+(one sequence or several merged files) and sharded iterables, at the data-source level and at the pipeline level
 (fused or chained, with aggregates, num_threads 0..3).
 """
 
@@ -21,19 +21,34 @@ from scenarios.common import v
 class TrackedList:
   """A random-access sequence that records which indices were read."""
 
-  def __init__(self, data):
+  def __init__(self, data, offset=0, reads=None):
     self._data = data
-    self.reads = []
+    self._offset = offset
+    self.reads = [] if reads is None else reads
 
   def __len__(self):
     return len(self._data)
 
   def __getitem__(self, i):
+    n = len(self._data)
     if isinstance(i, slice):
-      self.reads.extend(range(*i.indices(len(self._data))))
+      self.reads.extend(self._offset + j for j in range(*i.indices(n)))
     else:
-      self.reads.append(i)
+      self.reads.append(self._offset + (i + n if i < 0 else i))
     return self._data[i]
+
+
+class TrackedFiles:
+  """Several TrackedLists (the files of one data set) sharing one read log."""
+
+  def __init__(self, data, sizes):
+    self.reads = []
+    self.parts = []
+    at = 0
+    for k in sizes:
+      self.parts.append(TrackedList(data[at:at + k], at, self.reads))
+      at += k
+    assert at == len(data), (at, len(data))
 
 
 class TrackedIterable:
@@ -56,13 +71,25 @@ class CkptFamily(common.Family):
   def gen(self, rng, tier):
     spec = pipes.gen_spec(rng, max_n=12, allow_rebatch=False, allow_sink=False)
     level = rng.choice(['source', 'pipeline', 'pipeline', 'chain'])
-    kind = rng.choice(['seq', 'seq', 'iter'])
+    kind = rng.choice(['seq', 'seq', 'multi', 'iter'])
     shards = []
-    nlev = rng.choice([0, 0, 1, 1, 2]) if kind == 'seq' else rng.choice([0, 1])
+    nlev = rng.choice([0, 0, 1, 1, 2]) if kind != 'iter' else rng.choice([0, 1])
     for _ in range(nlev):
       k = rng.choice([1, 2, 3])
       shards.append([rng.randrange(k), k])
     n = spec['n']
+    files = []
+    if kind == 'multi':
+      # a data set made of several files (some possibly empty); shard ends
+      # regularly coincide with file boundaries
+      left = n
+      while left > 0:
+        k = rng.choice([0, 1, 1, 2, 2, 3, 4])
+        k = min(k, left)
+        files.append(k)
+        left -= k
+      if rng.random() < 0.3:
+        files.append(0)
     gens = rng.choice([1, 1, 2, 2, 3])
     cuts = [rng.randrange(0, n + 1) for _ in range(gens)]
     nops = len(spec['ops'])
@@ -72,6 +99,7 @@ class CkptFamily(common.Family):
     num_threads = 0 if level == 'source' else rng.choice([0, 0, 0, 1, 2, 3])
     return {
         'spec': spec, 'level': level, 'kind': kind, 'shards': shards,
+        'files': files,
         'cuts': cuts, 'stages': cutpoints, 'num_threads': num_threads,
         'sim': {'fine': num_threads > 0 and rng.random() < 0.2,
                 'stay': rng.choice([0.0, 0.0, 0.5, 0.8])},
@@ -82,6 +110,10 @@ class CkptFamily(common.Family):
     from ml_metrics._src.chainables import io
     if cfg['kind'] == 'seq':
       ds = io.SequenceDataSource(tracked)
+      for i, k in cfg['shards']:
+        ds = ds.shard(i, k)
+    elif cfg['kind'] == 'multi':
+      ds = io.SequenceDataSource.from_sequences(tracked.parts)
       for i, k in cfg['shards']:
         ds = ds.shard(i, k)
     else:
@@ -108,15 +140,15 @@ class CkptFamily(common.Family):
 
     # uninterrupted reference run (sequential, same source configuration)
     ref_cfg = dict(cfg, num_threads=0)
-    it = self._make_iter(ref_cfg, TrackedList(data) if cfg['kind'] == 'seq'
-                         else TrackedIterable(data))
+    mk = {'seq': lambda: TrackedList(data),
+          'multi': lambda: TrackedFiles(data, cfg['files']),
+          'iter': lambda: TrackedIterable(data)}[cfg['kind']]
+    it = self._make_iter(ref_cfg, mk())
     ref = [key(b) for b in it]
     ref_res = pipes.norm_result(it.agg_result) if has_agg else None
 
     segments = []
     reads_at_cut = []
-    mk = (lambda: TrackedList(data)) if cfg['kind'] == 'seq' else (
-        lambda: TrackedIterable(data))
     tracked = mk()
     it = self._make_iter(cfg, tracked)
     for g, cut in enumerate(cfg['cuts']):
@@ -238,6 +270,14 @@ class CkptFamily(common.Family):
       c = copy.deepcopy(cfg)
       c['spec']['n'] -= 1
       c['cuts'] = [min(x, c['spec']['n']) for x in c['cuts']]
+      if c.get('files'):
+        j = max(i for i, k in enumerate(c['files']) if k > 0)
+        c['files'][j] -= 1
+      yield c
+    if cfg.get('files') and len(cfg['files']) > 1:
+      # merge the last two files
+      c = copy.deepcopy(cfg)
+      c['files'][-2:] = [sum(c['files'][-2:])]
       yield c
     if spec['rows'] > 1:
       c = copy.deepcopy(cfg); c['spec']['rows'] = 1; yield c
